@@ -65,7 +65,11 @@ def seeds(target: str) -> list[bytes]:
             out.append(bytes(node.script() if callable(node.script) else node.script))
         return out
     if target == "text_codecs":
-        return [x.encode() for x in c["addresses"][:10] + c["xkeys"][:4] + c["psbt_b64"][:2]] + [b"bitcoin:1BgGZ9tcN4rm9KBzDn7KprQz87SZ26SAMH?amount=1.5&label=x"]
+        # the structured form of the C06 oracle: (hrp, flags|version, length) + program + (position, character) edits; lower and upper case, both checksum constants
+        # (the program of the seeds is the bit pattern of the letter k, the one letter of the alphabet that a character outside ASCII case-maps to)
+        structured = [bytes([h, v, n]) + (b"\xb5\xad\x6b\x5a\xd6" * 8)[:n] + tail for h, (v, n) in enumerate([(0, 20), (0x90, 32), (1, 32), (0x91, 2), (0x40, 20), (16, 40)])
+                      for tail in (b"", b"\x05\x71", b"\x00\x90")]
+        return [x.encode() for x in c["addresses"][:10] + c["xkeys"][:4] + c["psbt_b64"][:2]] + [b"bitcoin:1BgGZ9tcN4rm9KBzDn7KprQz87SZ26SAMH?amount=1.5&label=x"] + structured
     return [b""]
 
 
@@ -143,7 +147,12 @@ def run_unit(unit, col, prop: str = "C19") -> None:
         cmd = ["/venv/bin/python", os.path.join(VERIF, "fuzz", "target.py"), target, corpus, f"-runs={runs}", f"-seed={seed}", f"-max_total_time={tier_time}",
                f"-artifact_prefix={crashes}/", "-max_len=4096", "-print_final_stats=1", "-timeout=30", "-rss_limit_mb=4096"]
         env = dict(os.environ, PYTHONHASHSEED="0", FUZZ_PROPS=prop)
-        r = subprocess.run(cmd, capture_output=True, text=True, env=env, timeout=tier_time + 300)
+        try:
+            r = subprocess.run(cmd, capture_output=True, text=True, env=env, timeout=tier_time + 600)
+        except subprocess.TimeoutExpired:
+            # the machine is too loaded for the campaign to end inside its budget: inconclusive, neither a violation nor a fault of the harness
+            col.bulk(1, 0, tags={f"fuzz:{target}:campaign-timed-out-inconclusive": 1})
+            return
         out = r.stderr + r.stdout
         m = re.search(r"stat::number_of_executed_units:\s*(\d+)", out)
         executed = int(m.group(1)) if m else len(re.findall(r"^#\d+", out, re.M))
@@ -165,6 +174,8 @@ def run_unit(unit, col, prop: str = "C19") -> None:
                 col.bulk(0, 0, tags={f"fuzz:{target}:crash-that-does-not-replay": 1})
         if not artifacts and r.returncode not in (0,):
             col.harness_errors.append(f"fuzz target {target} exited {r.returncode}: {out[-400:]}")
+        if executed < runs:
+            col.bulk(0, 0, tags={f"fuzz:{target}:stopped-by-the-time-budget-after-{executed * 100 // max(runs, 1)}%": 1})
         col.bulk(max(executed, 1), new_units, {"target": target, "executions": executed, "corpus_units_added": new_units, "libfuzzer_seed": seed}, {f"target={target}": 1, "campaigns": 1})
     finally:
         shutil.rmtree(work, ignore_errors=True)
